@@ -1,6 +1,7 @@
 import TrackpyV.Model.LocatePost
 import Batteries.Data.List.Perm
 import Mathlib.Tactic.Linarith
+import Mathlib.Tactic.Ring
 /-!
 Helper lemmas for C08 (`Props/C08.lean`): the duplicate rule, the mass sort, `argmax`,
 sub-multiset facts about the selection stages, the ep arithmetic.
@@ -49,6 +50,20 @@ theorem dedupe_separated {sep : List Rat} {l : List Feat} {x y : Feat}
   rcases pair_one_dropped hx.1 hy.1 ht hc' with h | h
   · rw [hx.2] at h; exact Bool.noConfusion h
   · rw [hy.2] at h; exact Bool.noConfusion h
+
+theorem sqdiff_comm : ∀ (A B : List Rat),
+    (List.zipWith (· - ·) A B).map (fun d => d * d) = (List.zipWith (· - ·) B A).map (fun d => d * d)
+  | [], B => by cases B <;> simp
+  | _ :: _, [] => by simp
+  | a :: A, b :: B => by
+    simp only [zipWith_cons_cons, map_cons, sqdiff_comm A B]
+    congr 1
+    ring
+
+/-- the rescaled distance does not depend on the order of the two rows -/
+theorem dist2_comm (sep p q : List Rat) : dist2 sep p q = dist2 sep q p := by
+  unfold dist2
+  rw [sqdiff_comm]
 
 /-! ## rescale -/
 
